@@ -287,7 +287,7 @@ def run_library(ctx, tag, yaml_path, options, language, write_version, replay):
         cfg, exc, out = shroudrun.run_inproc([yaml_path], d, options=options, language=language, write_version=write_version)
     if exc is not None:
         common.rmtree(d)
-        return {"exc": exc, "outdir": None}
+        return {"exc": exc, "outdir": None, "wrapping_started": bool(rec.c)}
     env = Env()
     libfmt = None
     for node in rec.nodes.values():
@@ -621,8 +621,8 @@ def compiler_checks(ctx, res, replay, stats):
     pairs = []
     for tname, t in alltypes.items():
         if t["bindc"] and not t["error"]:
-            for c in cnames:
-                if c == tname or c.endswith("_" + tname):
+            for c in sorted(cnames, key=lambda x: (x.startswith("s_"), x)):
+                if (c == tname or c.endswith("_" + tname)) and not c.startswith("s_"):
                     pairs.append((cnames[c], tname))
                     break
     hdrs = [fn for fn in sorted(os.listdir(d)) if fn.endswith(HDR_EXT) and not fn.startswith(("py", "lua"))]
@@ -647,7 +647,8 @@ def compiler_checks(ctx, res, replay, stats):
             p = subprocess.run(cmd + [fn], cwd=d, stdout=subprocess.PIPE, stderr=subprocess.PIPE, text=True, timeout=300)
             okc = okc and p.returncode == 0
         if okc:
-            p = subprocess.run(["gfortran", "-o", "c04size", "c04size.f90"] + [os.path.splitext(fn)[0] + ".o" for fn in sorted(done)],
+            # only the .mod files are needed (types); the module objects reference the C wrappers
+            p = subprocess.run(["gfortran", "-o", "c04size", "c04size.f90"],
                                cwd=d, stdout=subprocess.PIPE, stderr=subprocess.PIPE, text=True, timeout=300)
             if p.returncode == 0:
                 fo = subprocess.run(["./c04size"], cwd=d, stdout=subprocess.PIPE, text=True, timeout=60).stdout
@@ -688,6 +689,11 @@ def c_same(a, b, structs, gstructs, ret=False):
     ba, bb = a["base"], b["base"]
     if ba[0] == "funptr" or bb[0] == "funptr":
         return True
+    if ba[0] == "cdesc" or bb[0] == "cdesc":
+        # gfortran 12 prints assumed-length character and assumed-rank dummies as plain `T *` in -fc-prototypes
+        # although it passes a descriptor (F2018 18.3.6); that view is not usable for such dummies (the Python
+        # table of the oracle covers them)
+        return ba[0] == bb[0] or (ba[0] == "cdesc" and pa == 1 and pb == 1)
     if pa != pb:
         # type(C_PTR) without value is void ** for gfortran; a T ** prototype is the same address
         return pa >= 1 and pb >= 1 and (ba[0] == "void" or bb[0] == "void") and (pa >= 2) == (pb >= 2) or \
@@ -704,8 +710,6 @@ def c_same(a, b, structs, gstructs, ret=False):
             return False
         return all(c_same(x, y, structs, gstructs) and (ip._extent(x["array"]) if x.get("array") else 0) == (ip._extent(y["array"]) if y.get("array") else 0)
                    for x, y in zip(ca, cb_))
-    if ba[0] == "cdesc" or bb[0] == "cdesc":
-        return ba[0] == bb[0]
     return ba == bb
 
 
@@ -847,6 +851,11 @@ def process(ctx, tag, yaml_path, options, language, wv, replay, stats, drv_lines
     res = run_library(ctx, tag, yaml_path, options, language, wv, replay)
     if res["exc"] is not None:
         stats["rejected"].append("%s: %r" % (tag, res["exc"]))
+        if tag.startswith("targeted") and res.get("wrapping_started"):
+            # the two lookup paths disagree for this argument (translator) and Shroud cannot even finish the interface
+            ctx.fail("c04:lookup-paths:%s" % re.sub(r"\s+", " ", replay["yaml"].split("- decl:")[-1].split("\n")[0]).strip(),
+                     "the C wrapper and the Fortran interface look up different statement entries for this argument and "
+                     "generation fails after the C wrapper was built: %r" % (res["exc"],), replay)
         return
     res["user_dirs"] = user_dirs
     try:
